@@ -14,6 +14,10 @@ use std::path::PathBuf;
 
 pub type P = Box<dyn Parser<V>>;
 
+/// how many times a completion function given to `Parser::complete` was called (C20: a run
+/// without a completion request does not call it - the builds without the feature have none)
+pub static COMPLETER_CALLS: std::sync::atomic::AtomicU64 = std::sync::atomic::AtomicU64::new(0);
+
 thread_local! {
     static INTERN: RefCell<HashMap<String, &'static str>> = RefCell::new(HashMap::new());
 }
@@ -349,7 +353,10 @@ fn build_wrap(w: &W, id: Id, inner: &Spec) -> P {
         #[cfg(feature = "ac")]
         W::Complete(vals, group) => {
             let vals = vals.clone();
-            let c = p.complete(move |_v: &V| vals.clone());
+            let c = p.complete(move |_v: &V| {
+                COMPLETER_CALLS.fetch_add(1, std::sync::atomic::Ordering::SeqCst);
+                vals.clone()
+            });
             match group {
                 Some(g) => c.group(g.clone()).boxed(),
                 None => c.boxed(),
